@@ -13,7 +13,15 @@ func c03Specs(tier string) []*Spec {
 	full := Alpha{Writes: true, Save: true, Rollback: true, Reopen: stdReopen, DelTo: true, LVFO: true}
 	writes := Alpha{Writes: true, Save: true}
 	noFast := Cfg{Fast: false}
+	// versions that were obtained once (GetImmutable), rolled back and written again with other contents
+	addRewrite := func(name string, cfg Cfg, depth int) {
+		a := Alpha{Writes: true, NoRemove: true, Save: true, LVFO: true, Hold: true, MaxVersions: 2}
+		ks := bs("a", "b")
+		specs = append(specs, &Spec{ID: "C03", Name: name, Cfg: cfg, Keys: ks, Vals: bs("x", "y"), MaxDepth: depth, MaxMaint: 1, Weight: 8,
+			Alphabet: a.Ops, Oracles: []Oracle{oracleProofs(probesFor(ks), true)}})
+	}
 	if tier == "quick" {
+		addRewrite("rewrite/2keys/d8", defaultCfg, 8)
 		add("default/3keys/d5", defaultCfg, k3, bs("x", "y"), 5, 1, full)
 		add("nofast/3keys/d4", noFast, k3, bs("x", "y"), 4, 1, full)
 		add("default/5keys/d6", defaultCfg, k5, bs("x"), 6, 0, writes)
@@ -24,6 +32,8 @@ func c03Specs(tier string) []*Spec {
 		add("iv8191/3keys/d4", Cfg{Fast: false, IVSet: true, IV: 8191}, k3, bs("x"), 4, 1, full)
 		return specs
 	}
+	addRewrite("rewrite/2keys/d10", defaultCfg, 10)
+	addRewrite("rewrite-nofast-cache1000/2keys/d9", Cfg{Fast: false, Cache: 1000}, 9)
 	add("default/3keys/d6", defaultCfg, k3, bs("x", "y"), 6, 2, full)
 	add("nofast/3keys/d6", noFast, k3, bs("x", "y"), 6, 2, full)
 	add("default/5keys/d7", defaultCfg, k5, bs("x"), 7, 0, writes)
